@@ -31,12 +31,12 @@ Definition g_sel_autooptions (o : gopt) : option bool :=
 Definition all_true (l : list bool) : bool := forallb (fun b => b) l.
 Definition g_valid (o : gopt) : bool :=
   match o with
-  | GMw ms | GMwFor ms => all_true ms
+  | GMw ms | GMwFor _ ms => all_true ms      (* whatever the scope is, even one that includes no handler *)
   | GNoRouteH nn | GNoMethodH nn | GOptionsH nn => nn
   | _ => true
   end.
 Definition g_nmws (o : gopt) : nat :=
-  match o with GMw ms | GMwFor ms => List.length ms | GDefault => 2 | _ => 0 end.
+  match o with GMw ms | GMwFor _ ms => List.length ms | GDefault => 2 | _ => 0 end.
 
 (* ---- per-route settings ---- *)
 Definition r_sel_redirect (o : ropt) : option bool :=
@@ -84,17 +84,24 @@ Fixpoint slookup (key : nat) (t : stab) : option sroute :=
 Fixpoint sreplace (key : nat) (v : sroute) (t : stab) : stab :=
   match t with [] => [] | (k, w) :: r => if Nat.eqb k key then (k, v) :: r else (k, w) :: sreplace key v r end.
 
-Definition valid_pattern (p : bytes) : bool := match parse_lite p with Some _ => true | None => false end.
+(* the limit on the number of wildcards: WithMaxRouteParams, math.MaxUint16 by default *)
+Definition g_sel_maxparams (o : gopt) : option N := match o with GMaxParams n => Some n | _ => None end.
+Definition max_params (g : list gopt) : N := last_sel g_sel_maxparams g 65535%N.
+
+(* well-formed, and no more wildcards than the limit *)
+Definition valid_pattern (g : list gopt) (p : bytes) : bool :=
+  match parse_lite p with Some _ => N.leb (N.of_nat (count_open p)) (max_params g) | None => false end.
 
 Definition spec_op (g : list gopt) (pats : list bytes) (t : stab) (o : op) : stab * obs :=
   match o with
   | OCreate v key handler opts =>
       let p := nth key pats [] in
       if negb handler then (t, ObsErr (Some ErrInvalidRoute) None)            (* nil handler *)
-      else if negb (valid_pattern p) then (t, ObsErr (Some ErrInvalidRoute) None)
+      else if negb (valid_pattern g p) then (t, ObsErr (Some ErrInvalidRoute) None)
       else if negb (forallb r_valid opts) then (t, ObsErr (Some ErrInvalidConfig) None)
       else let rt := mkSRoute p opts in
            match v, slookup key t with
+           | VOnly, _ => (t, ObsErr None (Some (spec_snapshot g rt)))             (* built, not registered *)
            | VUpdate, None => (t, ObsErr (Some ErrRouteNotFound) None)
            | VUpdate, Some _ => (sreplace key rt t, ObsErr None (Some (spec_snapshot g rt)))
            | _, Some _ => (t, ObsErr (Some ErrRouteExist) None)
